@@ -1,6 +1,7 @@
 """C14 - events resolve their keys and play as correctly timed server commands."""
 
 import ast
+import re
 
 from ..loader import norm, full, walk_local, walk_local_ordered, qualname_of
 from .. import util as U
@@ -298,8 +299,55 @@ def rule_accum(ctx, rid='C14.accum', modules=None, least=4):
     ctx.require(n >= least, rid, f'only {n} loop-carried sums found')
 
 
+def rule_par(ctx):
+    ctx.rule('C14.par', 'Ppar keeps a local clock: after every event it yields, `now` advances to exactly the time whose distance from '
+                        '`now` was emitted as that event\'s delta, and that time was read from the queue in the same block')
+    f = ctx.repo.func('sc3.seq.patterns.eventpatterns:Ppar.__embed__')
+    m = f.module
+    n = 0
+
+    def blocks(node):
+        for x in ast.walk(node):
+            for fld in ('body', 'orelse', 'finalbody'):
+                b = getattr(x, fld, None)
+                if isinstance(b, list) and b and isinstance(b[0], ast.stmt):
+                    yield b
+            if isinstance(x, ast.Try):
+                for h in x.handlers:
+                    yield h.body
+    for b in blocks(f.node):
+        for i, st in enumerate(b):
+            if not (isinstance(st, ast.Assign) and isinstance(st.value, ast.Yield)):
+                continue
+            n += 1
+            # the emitted delta: nearest earlier statement of the block that sets it
+            target = None
+            for prev in reversed(b[:i]):
+                t = norm(prev)
+                mm = re.fullmatch(r"outevent\['delta'\] = (\w+) - now", t) or re.fullmatch(r'outevent = evt\.silent\((\w+) - now, \w+\)', t) \
+                    or re.fullmatch(r'outevent = evt\.silent\((\w+), \w+\)', t)
+                if mm:
+                    target = mm.group(1)
+                    break
+            nxt = norm(b[i + 1]) if i + 1 < len(b) else None
+            fresh = target is not None and any(isinstance(p_, ast.Assign) and norm(p_.targets[0]) == target and 'queue.peek()[0]' in norm(p_.value)
+                                               for p_ in b[:i])
+            outer = target is not None and not fresh and any(
+                isinstance(p_, ast.Assign) and norm(p_.targets[0]) == target and 'queue.peek()[0]' in norm(p_.value)
+                for bb in blocks(f.node) if any(b is getattr(y, 'body', None) for y in bb if isinstance(y, ast.If)) for p_ in bb)
+            ok = target is not None and nxt == f'now = {target}' and (fresh or outer)
+            ctx.ob('C14.par', f'{f.fq}:yield#{n}', ok,
+                   f'after yielding an event whose delta is `{target} - now`, the local clock must become `{target}`, read from the queue in this '
+                   f'block (found next statement `{nxt}`, fresh read: {fresh or outer}): otherwise the clock lags and later siblings are shifted', st, m)
+    ctx.require(n >= 3, 'C14.par', f'only {n} yields found in Ppar.__embed__')
+    src = full(f.node)
+    ctx.ob('C14.par', f'{f.fq}:requeue', "queue.add(now + float(outevent('delta')), stream)" in src,
+           'a child is re-queued at the local time plus its own delta', f.node, m)
+
+
 def run(ctx):
     rule_accum(ctx)
+    rule_par(ctx)
     rule_note(ctx)
     rule_keys(ctx)
     rule_rest(ctx)
@@ -308,6 +356,10 @@ def run(ctx):
 
 
 MUTANTS = [
+    dict(rule='C14.par', name='Ppar bridging rest leaves the local clock behind (seed C14-c)', file='sc3/seq/patterns/eventpatterns.py',
+         old="                    nexttime = queue.peek()[0]\n                    outevent = evt.silent(nexttime - now, inevent)", new="                    outevent = evt.silent(queue.peek()[0] - now, inevent)"),
+    dict(rule='C14.par', name='Ppar does not advance its clock after a child event', file='sc3/seq/patterns/eventpatterns.py',
+         old="                inevent = yield outevent\n                now = nexttime\n            except stm.StopStream:", new="                inevent = yield outevent\n            except stm.StopStream:"),
     dict(rule='C14.accum', name='Pdur accumulates the rounded elapsed time (seed C14-b)', file='sc3/seq/patterns/filterpatterns.py',
          old="                next_elapsed = elapsed + float(delta)\n                if bi.roundup(next_elapsed, tolerance) >= local_dur:",
          new="                next_elapsed = bi.roundup(elapsed + float(delta), tolerance)\n                if next_elapsed >= local_dur:"),
